@@ -44,11 +44,17 @@ structure MapM (α : Type) where
   holds : List Row
   others : α
 
-/-- `pd.concat([v.df for v in objs if isinstance(v, (type(m.hits), type(m.holds)))])`, three columns -/
-def stacked {α} (m : MapM α) : List Row := m.hits.map asHit ++ m.holds
+/-- `pd.concat([v.df for v in objs if isinstance(v, (type(m.hits), type(m.holds)))])`, three columns.
+The rows of `hits` are taken as they are: a hit list normally has no `length` column (`length = none`, the NaN
+that `concat` fills in), but a list that carries a stray `length` column contributes its values — the loop
+below tells hits from holds only by `isnan(length)` (hence the domain hypothesis of `fullLn_spec`). -/
+def stacked {α} (m : MapM α) : List Row := m.hits ++ m.holds
+
+/-- the chart's own notes with their kind = the list they live in: a member of `hits` is a hit -/
+def ownNotes {α} (m : MapM α) : List Row := m.hits.map asHit ++ m.holds
 
 /-- every note of the chart, the further note lists included -/
-def notes {α} (m : MapM α) : List Row := m.extras ++ stacked m
+def notes {α} (m : MapM α) : List Row := m.extras ++ ownNotes m
 
 /-- `sort_values(["offset"])`; the model is the stable one, theorems quantify over any sorting function -/
 def sortByOffset (l : List Row) : List Row := isort (fun a b => decide (a.offset ≤ b.offset)) l
